@@ -1,6 +1,8 @@
 #![cfg_attr(all(nightly, test), feature(test))]
 
 mod atomic;
+#[cfg(may_verif)]
+pub mod verif;
 
 pub mod mpsc;
 pub mod mpsc_list;
